@@ -487,7 +487,12 @@ func (m *mon) solo(t *target, c *tcase, firstCPU int64) {
 		w := witnessOf(t, c)
 		w["allocated_bytes_solo"], w["bound_bytes"], w["allocation_site"] = a, abd, site
 		m.b.MaxOf("max_solo_alloc_over_bound_bytes", int64(a))
-		m.b.Violate(fmt.Sprintf("C10/alloc/%s/%s", site, category(t, c)),
+		key := fmt.Sprintf("C10/alloc/%s/%s", site, category(t, c))
+		if strings.HasPrefix(site, "types.(*Decoder).") {
+			// a generic decoder primitive: the entry point says which message limit let it allocate
+			key += "/entry=" + t.name
+		}
+		m.b.Violate(key,
 			fmt.Sprintf("%s allocated %d bytes for a %d-byte %s input (bound %d), measured alone", t.name, a, len(c.data), c.class, abd), w)
 		m.confirmed[skipSig(t, c.class, c.sub, c.data)] = true
 	} else if allocOnly {
